@@ -340,7 +340,7 @@ fn build_seq(seq: &[usize]) -> Vec<u8> {
     assemble(&chunks)
 }
 
-fn check_injection(o: &mut Out, base: &str, inj: &Inj, opts: Opts) {
+fn check_injection(o: &mut Out, base: &str, inj: &Inj, opts: Opts, base_frames: &[String]) {
     o.mark(&format!("inj {} {} {}", base, inj.label, hex(&inj.bytes)));
     let s = summarize(&inj.bytes, &[0], opts, 0);
     o.direct_checks += 1;
@@ -367,8 +367,20 @@ fn check_injection(o: &mut Out, base: &str, inj: &Inj, opts: Opts) {
         }
     };
     if let Some(kind) = bad {
-        o.violation(viol(kind, vec![("base", jstr(base)), ("injection", jstr(&inj.label)), ("affected_frame", format!("{:?}", inj.frame).replace("Some(", "").replace(')', "").replace("None", "\"trailer\"")),
-            ("opts", opts.bits().to_string()), ("bytes", jstr(&hex(&inj.bytes))), ("result", jstr(&s.pixels_text()))]));
+        // known finding: the violation sits BEHIND the last byte the frame's rows needed (tail of its data run): the frame is delivered with the
+        // pixels of the valid file, nothing after it is delivered, and the error is reported by the following call (or by finish())
+        let late = match inj.frame {
+            Some(k) if kind == "invalid-structure-decoded-successfully" =>
+                (0..=k).all(|j| s.frames.get(j).map_or(false, |f| base_frames.get(j) == Some(f)))
+                && !s.frames.iter().skip(k + 1).any(|f| f.starts_with("ok"))
+                && (s.frames.iter().skip(k + 1).any(|f| f.starts_with("err:Format")) || s.fin.starts_with("err:Format")),
+            _ => false,
+        };
+        let kind_class = if late { "structure-violation-behind-the-rows-of-a-frame-reported-one-call-late" } else { kind };
+        let mut v = viol(kind, vec![("base", jstr(base)), ("injection", jstr(&inj.label)), ("affected_frame", format!("{:?}", inj.frame).replace("Some(", "").replace(')', "").replace("None", "\"trailer\"")),
+            ("opts", opts.bits().to_string()), ("bytes", jstr(&hex(&inj.bytes))), ("result", jstr(&s.pixels_text()))]);
+        v = v.replacen(&format!("\"class\": \"{}\"", kind), &format!("\"class\": \"{}\"", kind_class), 1);
+        o.violation(v);
     }
 }
 
@@ -391,7 +403,7 @@ pub fn run(a: &Args) {
         let mut injs = injections(&b, &mut rng);
         injs.push(bad_filter_file(&mut rng));
         for inj in &injs {
-            check_injection(&mut o, &b.name, inj, opts);
+            check_injection(&mut o, &b.name, inj, opts, &base.frames);
             if inj.bytes.len() <= 500 && rng.chance(1, 6) {
                 let r = run_l0(&[inj.bytes.clone()], opts, None);
                 o.case(&format!("l0 {} {} 0 {}", opts.bits(), 67108864u64, hex(&inj.bytes)), &strip_d(&r.text), &inj.label, true);
